@@ -279,7 +279,9 @@ class MemTermsReader(base.TermsReader):
 
     def terms_from(self, fieldname, prefix):
         if fieldname not in self._invindex:
-            raise TermNotFound("Unknown field %r" % (fieldname,))
+            # No buffered document has a term in this field (the caller has
+            # already checked the field against the schema)
+            return
         terms = sorted(self._invindex[fieldname])
         if not terms:
             return
